@@ -28,6 +28,11 @@ def runF (nb : Nat → Nat → Option Nat) (lex : Bool) (nroots rank : Nat) :
   | f, [] => some f
   | f, k :: w => if k < rank ∧ f k = false then runF nb lex nroots rank (succF nb lex nroots k f) w else none
 
+/-- tie of the bit-function variant to the executed list model: on the bits of a node `agF` *is*
+`applyGenToNode` -/
+theorem agF_bits (nb : Nat → Nat → Option Nat) (lex : Bool) (k : Nat) (node : List Bool) (pos : Nat) :
+    agF nb lex k (bits node) pos = applyGenToNode nb lex k node pos := rfl
+
 theorem bits_succNode (nb : Nat → Nat → Option Nat) (lex : Bool) (nroots k : Nat) (node : List Bool) :
     bits (succNode nb lex nroots k node) = succF nb lex nroots k (bits node) := by
   funext p
